@@ -24,6 +24,17 @@ Section Hmm.
     end.
 
   Definition marginal (rys : list nat) : Qc := sumK (alpha rys).
+
+  (** the same recursion as the code runs it: one vector per step, oldest
+      observation first (linear in the sequence length) *)
+  Definition step_vec (prev : list Qc) (y : nat) : list Qc :=
+    map (fun x' => E x' y * sumK (fun x => nth x prev 0 * A x x')) (seq 0 K).
+  Definition alpha_vec (ys : list nat) : list Qc :=
+    match ys with
+    | [] => map (fun _ => 0) (seq 0 K)
+    | y0 :: ys' => fold_left step_vec ys' (map (fun x => E x y0 * pi0 x) (seq 0 K))
+    end.
+  Definition marginal_vec (ys : list nat) : Qc := fold_right Qcplus 0 (alpha_vec ys).
   Definition filtering (rys : list nat) (x : nat) : Qc := alpha rys x / marginal rys.
 
   (** joint probability of a state path and the observations (both newest first) *)
